@@ -5,6 +5,7 @@ import ExoVerif.Model.GenesisOperator
 import ExoVerif.Model.GenesisMods
 import ExoVerif.Model.GenesisValSet
 import ExoVerif.Model.GenesisDue
+import ExoVerif.Model.GenesisDelegation
 /- driver for the C18 correspondence: the harness describes the cross-module core of the real state before the
    export (`gen.und`, `gen.q`, `gen.cur`, `gen.prev`, `gen.rev`, `gen.val`), `gen.roundtrip` prints what the model says the
    re-imported chain holds (undelegations with hold counts, dogfood queues, reverse key lookups, validator set).
@@ -25,7 +26,9 @@ import ExoVerif.Model.GenesisDue
    LastTotalPower, the validators returned to the consensus engine and the jail status per stored validator.
    import height: `gen.h` the height InitChain runs InitGenesis at (the export height = last committed height + 1);
    `gen.roundtrip` prints `import-failed` when SetUndelegationRecords rejects an exported record at that height
-   (x/delegation InitGenesis panics), Model/GenesisDue.lean. -/
+   (x/delegation InitGenesis panics), Model/GenesisDue.lean.
+   undelegation records: `gen.uv id submitted complete amount actual pending` one exported record with its
+   ActualCompletedAmount (what a slash leaves); prints the verdict of validateUnd (`panic` for a nil amount: `.GT` on nil). -/
 namespace ExoVerif.Driver.Genesis
 open ExoVerif.Genesis ExoVerif.Driver
 
@@ -142,6 +145,9 @@ def step (st : St) (w : List String) : St × String :=
   | ["gen.valset"] => (st, valsetRoundtrip s st.jl st.tp)
   | ["gen.dl", sk, asset, op, sh, pd] => ({ st with delegs := st.delegs ++ [⟨sk, asset, op, parseInt! sh, parseInt! pd⟩] }, "ok")
   | ["gen.pools"] => (st, poolsRoundtrip a st.delegs)
+  | ["gen.uv", _, sub, c, am, ac, p] =>
+    (st, if am == "nil" || ac == "nil" then "panic"
+         else if validateUnd ⟨parseInt! sub, parseInt! c, parseInt! am, parseInt! ac, p == "1"⟩ then "ok" else "rej")
   | ["gen.und", id, c, am, h] => ({ st with core := { s with unds := s.unds ++ [⟨id, parseInt! c, parseInt! am, parseInt! h⟩] } }, "ok")
   | ["gen.q", p, e, it] => ({ st with core := { s with queues := s.queues ++ [⟨parseNat! p, parseInt! e, it, []⟩] } }, "ok")
   | ["gen.q", p, e, it, recs] => ({ st with core := { s with queues := s.queues ++ [⟨parseNat! p, parseInt! e, it, recs.splitOn "+"⟩] } }, "ok")
